@@ -134,6 +134,8 @@ type c35Case struct {
 	Sets []c35Set `json:"sets"`
 	All  []byte   `json:"all,omitempty"`  // G3: every location gets this value
 	Lens []int    `json:"lens,omitempty"` // G4: listeners, peers, users (overrides N)
+	Keep []string `json:"keep,omitempty"` // G7: only these secret locations are populated, the others are empty
+	Only bool     `json:"only,omitempty"` // G7 marker (Keep may be empty: no secret at all)
 }
 
 func (cs c35Case) build() *Config {
@@ -146,6 +148,9 @@ func (cs c35Case) build() *Config {
 func (cs c35Case) describe() string {
 	if cs.All != nil {
 		return fmt.Sprintf("every string field = %q", cs.All)
+	}
+	if cs.Only {
+		return fmt.Sprintf("the only populated secret locations are {%s}", strings.Join(cs.Keep, ", "))
 	}
 	var parts []string
 	for _, st := range cs.Sets {
@@ -162,6 +167,24 @@ func (cs c35Case) apply(c *Config) bool {
 		}
 		for _, l := range carriers {
 			*l.ptr = string(cs.All)
+		}
+	}
+	if cs.Only {
+		keep := map[string]bool{}
+		for _, p := range cs.Keep {
+			keep[p] = false
+		}
+		for _, l := range secrets {
+			if _, ok := keep[l.path]; ok {
+				keep[l.path] = true
+			} else {
+				*l.ptr = ""
+			}
+		}
+		for _, seen := range keep {
+			if !seen {
+				return false
+			}
 		}
 	}
 	for _, s := range cs.Sets {
@@ -222,6 +245,9 @@ func c35Run(r *vmc.Result, cs c35Case, grid, valLabel string) {
 	site := grid
 	if len(cs.Sets) > 0 {
 		site = c35Class(cs.Sets[0].Path)
+	}
+	if cs.Only && len(cs.Keep) > 0 {
+		site = c35Class(cs.Keep[0])
 	}
 	var out string
 	var red *Config
@@ -455,6 +481,29 @@ func TestVerif_C35(t *testing.T) {
 			if i < 0 {
 				break
 			}
+		}
+	}
+	// G7: which secrets are present. Every subset of the 14 secret locations of a configuration with
+	// one-element lists is the only populated set (the others are empty, as in a real configuration that
+	// uses, say, TLS keys but no passwords); quick: subsets of size <= 3, thorough: all 2^14.
+	{
+		sl := locsOf[1].secrets
+		maxSize := 3
+		if thorough {
+			maxSize = len(sl)
+		}
+		for mask := 0; mask < 1<<len(sl) && !r.Expired(); mask++ {
+			var keep []string
+			for i, p := range sl {
+				if mask&(1<<i) != 0 {
+					keep = append(keep, p)
+				}
+			}
+			if len(keep) > maxSize || !mine() {
+				continue
+			}
+			c35Run(r, c35Case{N: 1, Only: true, Keep: keep}, "G7-present", fmt.Sprintf("only-%d-secrets", len(keep)))
+			r.Add("g7_cases", 1)
 		}
 	}
 	// G6 (thorough): secret position x hostile value x carrier position x structure-breaking value
